@@ -7,27 +7,68 @@ COQ_IMPORTS = ['C07_Model']
 GENERATORS = ['gen_codes', 'gen_gcode_json', 'gen_c07_tabs', 'gen_c07_ok']
 LETTERS = 'ACGTRYSWKMBDHVN'
 MODELLED_FUNCS = {'sugar/core/cane.py': ['translate'], 'sugar/data/__init__.py': ['gcode'],
-                  'sugar/core/seq.py': ['BioSeq.translate', 'BioBasket.translate']}
-TABLE_IDS = [1, 2, 3, 4, 5, 6, 9, 10, 11, 12, 13, 14, 15, 16, 21, 22, 23, 24, 25, 26, 27, 28, 29, 30, 31, 32, 33]
-RULE = ('HISTORIES (op 3, 300 quick / 3000 thorough): several calls in one process on one persistent BioSeq and on texts - the same text with '
+                  'sugar/core/seq.py': ['BioSeq.translate', 'BioBasket.translate'], 'sugar/scripts.py': ['translate']}
+FALLBACK_IDS = [1, 2, 3, 4, 5, 6, 9, 10, 11, 12, 13, 14, 15, 16, 21, 22, 23, 24, 25, 26, 27, 28, 29, 30, 31, 32, 33]
+_IDS = None
+
+
+def table_ids():
+    """ids of the bundled tables: regenerated on every run from gc.json of the tree under test, united with the ids NCBI's gc.prt
+    defines (a table that only one of the two knows is still asked for: the model answers KeyError for it)"""
+    global _IDS
+    if _IDS is None:
+        try:
+            import json
+            ids = set(int(k) for k in json.load(open(os.path.join(gcode_dir(), 'gc.json'))))
+            ids |= set(prt_tables())
+            _IDS = sorted(ids) or list(FALLBACK_IDS)
+        except Exception:
+            _IDS = list(FALLBACK_IDS)
+    return _IDS
+
+
+RULE = ('ENTRY POINTS (every run, both tiers): every bundled table id (regenerated from gc.json of the tree under test, united with the ids of '
+        'NCBI gc.prt) x every public way to reach translate - cane.translate(str), cane.translate(BioSeq), BioSeq.translate, '
+        'BioBasket.translate (two members; and baskets of 1-5 records), the command line `sugar translate` = sugar.scripts.cli([...]) with '
+        'every spelling of -tt/--translation-table (also repeated: the last one wins, and --translation-table=N) and -c/--complete, '
+        'options before or after the positional, sugar.scripts.run(\'translate\', ...) and sugar.scripts.translate(...) with the full '
+        'option record, each on a nucleotide STRING (one or several lines) and on a FASTA FILE (relative or absolute name; output printed '
+        'or written with -o, as FASTA or SJSON - SJSON shows the type aa) - at least twice per table and entry point, on texts built '
+        'from that table\'s OWN start and stop codons (read from gc.prt) and the codons on which the tables differ; the table named by an '
+        'int or by its decimal string. The script entry points run in process in an empty scratch directory as cwd (stdout/stderr captured, '
+        'SystemExit / ExceptionGroup / exceptions all count as "fails"); in addition 54 (thorough 108) CHILD PROCESSES run the console-script '
+        'shape and `python -m sugar.scripts` with PYTHONPATH = the tree under test for every table id, and `--cds` is run on the bundled '
+        'GenBank example. HISTORIES (op 3, 300 quick / 3000 thorough; the first 81 walk over every table x every pattern): several calls in '
+        'one process on one persistent BioSeq and on texts - the same text with '
         'option records differing in astop/gap/gap_after/check_*/final_stop/complete/tt in both orders, another text of the same length, '
         'translate(seq) around in-place edits (data assignment, reverse, str.replace), seq.translate in place, baskets holding the same '
-        'object twice and a member that raises; every step is compared with the pure model applied to the current value (a history counts '
+        'object twice and a member that raises, the command line between the calls, read-only touches of the cached gcode(tt) object and '
+        'copies of it (Attr.copy / deepcopy) customised in place; every step is compared with the pure model applied to the current value '
+        '(a history counts '
         'as in-domain when all its option records are valid; the gc.prt oracle is applied to the steps whose input is a nucleotide string). '
         'SINGLE CALLS: per table: all 3375 IUPAC codons concatenated in chunks (complete=True) so that every codon of every table is translated '
         'on every run; single codons (all 3375 x 27 tables in the thorough tier) and codon pairs over {A,T,G,R,N,-} with the option '
         'grid complete/check_start/check_stop/final_stop in {None,True,False} x astop x gap x gap_after; random CDS-like strings up '
         'to 300 codons with T/U mixing, ambiguity codes and gaps injected inside codons, between codons, leading, trailing and '
-        'after the last stop; cane.translate, BioSeq.translate and BioBasket.translate; a slice of out-of-domain inputs (foreign '
-        'characters, gap=None with gap characters, gap_after=0). non-trivial = distinct case marked by at least one of: gap, '
-        'ambiguous codon, stop reached, error raised, non-default option, wrapper')
-TRUSTED = ['modelled rather than verified: sugar.core.cane.translate (warn modelled as a no-op), gcode() table lookup as '
-           'base-15 codon numbers over the regenerated G_gc_<id> tables, BioSeq/BioBasket.translate wrappers (seq.py:599-608,892-900)',
-           'tools/gens/gcode.py + tools/gens/c07.py translators (gc.json -> Coq); CPython dict/set membership, str.replace/count/join',
+        'after the last stop; a slice of out-of-domain inputs (foreign '
+        'characters, gap=None with gap characters, gap_after=0). WARNINGS (op 7): warn=True/False with the warnings recorded; the verdict '
+        'uses the returned value / exception only, number and kinds of warnings are compared with the proved warning model as a statistic '
+        '(coverage.warning_model_statistic_not_part_of_verdict). non-trivial = distinct case marked by at least one of: gap, '
+        'ambiguous codon, stop reached, error raised, non-default option, wrapper, script entry point, history')
+TRUSTED = ['modelled rather than verified: sugar.core.cane.translate (with its warnings: translate_w), gcode() table lookup by str(tt) as '
+           'base-15 codon numbers over the regenerated G_gc_<id> tables, BioSeq/BioBasket.translate wrappers (seq.py:606-616,902-911), '
+           'sugar.scripts.translate/run/cli: the -tt/-c decision table, one translation per line of a string input, file input as a basket',
+           'trusted for the command line: argparse itself (spellings, last occurrence wins, `--`), sugar.read / tofmtstr / write of FASTA and '
+           'SJSON (properties C01, C14), print',
+           'tools/gens/gcode.py + tools/gens/c07.py translators (gc.json -> Coq); CPython dict/set membership, str.replace/count/join/splitlines',
            'property oracle reads NCBI gc.prt with its own parser and the IUPAC code written by hand (independent of gc.json and of the Coq model)']
-ASSUMPTIONS = ['Python str restricted to Latin-1 code points; astop and gap are single characters; warnings are not observable (warn=True only adds warnings)',
+ASSUMPTIONS = ['Python str restricted to Latin-1 code points; astop and gap are single characters; warnings are not observable through the '
+               'property (warn=True only adds warnings: proved of the model, compared on every run)',
                'domain (decided by wf_C07 in Coq): residues over ACGTU+IUPAC codes plus the gap character, gap not a nucleotide/amino-acid/astop '
-               'symbol, gap_after None or >= 1, table id one of the 27 shipped']
+               'symbol, gap_after None or >= 1, table id one of the 27 shipped; string input of the command line: lines separated by "\\n", '
+               'astop/gap no line-break character; file input: FASTA records s0, s1, ... with upper-case residues on one line',
+               'in-place customisation of the CACHED object gcode(tt) by the caller is outside the property (it changes what "the table" is '
+               'for the rest of the process: gcode hands out one lru_cached mutable Attr); copies of it are inside and have no effect']
 
 # ------------------------------------------------------------------ independent specification (NCBI gc.prt + IUPAC)
 IUPAC = {'A': 'A', 'C': 'C', 'G': 'G', 'T': 'T', 'R': 'AG', 'Y': 'CT', 'S': 'CG', 'W': 'AT', 'K': 'GT', 'M': 'AC',
@@ -35,13 +76,22 @@ IUPAC = {'A': 'A', 'C': 'C', 'G': 'G', 'T': 'T', 'R': 'AG', 'Y': 'CT', 'S': 'CG'
 _PRT = None
 
 
+def gcode_dir():
+    """the bundled data directory of the tree under test (located without importing sugar, so that the import itself happens
+    while the statement coverage of the anchored files is being measured)"""
+    from framework import REPO
+    d = os.path.join(REPO, 'sugar', 'data', 'data_gcode')
+    if os.path.isdir(d):
+        return d
+    import sugar.data
+    return os.path.join(os.path.dirname(sugar.data.__file__), 'data_gcode')
+
+
 def prt_tables():
     """{id: (ncbieaa, sncbieaa)} from gc.prt, NCBI base order TCAG."""
     global _PRT
     if _PRT is None:
-        import sugar.data
-        p = os.path.join(os.path.dirname(sugar.data.__file__), 'data_gcode', 'gc.prt')
-        txt = open(p, encoding='latin-1').read()
+        txt = open(os.path.join(gcode_dir(), 'gc.prt'), encoding='latin-1').read()
         _PRT = {}
         for m in re.finditer(r'\bid\s+(\d+)\s*,\s*ncbieaa\s+"([^"]{64})"\s*,\s*sncbieaa\s+"([^"]{64})"', txt):
             _PRT[int(m.group(1))] = (m.group(2), m.group(3))
@@ -100,11 +150,97 @@ def spec_translate(case, s):
     return ''.join(sym[:k] + ([sym[k]] if fs else []))
 
 
+_WORDS = {}
+
+
+def table_words(tt):
+    """(start codons, stop codons, codons on which the bundled tables differ) of table tt, read from NCBI's gc.prt"""
+    if not _WORDS:
+        B = 'TCAG'
+        cods = [x + y + z for x in B for y in B for z in B]
+        tabs = prt_tables()
+        differ = [c for i, c in enumerate(cods) if len(set((tabs[k][0][i], tabs[k][1][i]) for k in tabs)) > 1]
+        for k in tabs:
+            aa, sc = tabs[k]
+            _WORDS[k] = ([c for i, c in enumerate(cods) if sc[i] == 'M'], [c for i, c in enumerate(cods) if sc[i] == '*'], differ)
+    return _WORDS.get(tt) or (['ATG'], ['TAA', 'TAG'], ['TGA', 'AGA', 'ATA', 'CTG', 'TCA', 'TTA', 'AAA'])
+
+
+def table_text(rng, tt, n=None):
+    """a CDS that tells table tt from the others: one of ITS start codons, codons on which the tables differ (stop codons of the
+    table among them, so that complete=False ends at a table-specific place), one of ITS stop codons, sometimes a tail"""
+    starts, stops, differ = table_words(tt)
+    body = rng.sample(differ, min(len(differ), n if n is not None else rng.choice([3, 5, 8])))
+    if rng.random() < 0.6:
+        body = [c for c in body if c not in stops]
+    return rng.choice(starts) + ''.join(body) + rng.choice(stops) + rng.choice(['', '', 'GCC', 'G', 'GCCAAA'])
+
+
 # ------------------------------------------------------------------ cases
+# op 0 cane.translate(str)   op 1 BioSeq.translate   op 2 BioBasket([s, s[3:]]).translate   op 3 history   op 6 cane.translate(BioSeq)
+# op 4 the script entry points on a nucleotide STRING (via = 'cli': sugar.scripts.cli(['translate', ...]); 'run': sugar.scripts.run(
+#      'translate', fname=..., **kw); 'fn': sugar.scripts.translate(fname, fmt, **kw)); the text may hold several lines
+# op 5 a LIST of records: via 'cli' / 'run' / 'fn' = the script entry points on a FASTA file, 'basket' = BioBasket(...).translate(**kw)
 def mk(s, tt=1, op=0, complete=False, check_start=None, check_stop=False, final_stop=None, astop='X', gap='-', gap_after=2,
        warn=False):
     return {'op': op, 'warn': warn, 's': s, 'tt': tt, 'complete': complete, 'check_start': check_start, 'check_stop': check_stop,
             'final_stop': final_stop, 'astop': astop, 'gap': gap, 'gap_after': gap_after}
+
+
+CLI_FORMS = {'s': lambda n: ['-tt', str(n)], 'l': lambda n: ['--translation-table', str(n)],
+             'e': lambda n: ['--translation-table=%d' % n]}
+CLI_CFORMS = {'s': '-c', 'l': '--complete'}
+
+
+def cli_args(rng, tt, complete):
+    """option tokens of `sugar translate` selecting table tt / complete: every spelling, repeated options (the last -tt wins,
+    -c is idempotent), the default table sometimes left implicit"""
+    args = []
+    if rng.random() < 0.3:
+        args.append(['tt', rng.choice([k for k in table_ids() if k != tt]), rng.choice('sle')])     # overridden below
+    if tt != 1 or args or rng.random() < 0.5:
+        args.append(['tt', tt, rng.choice('sle')])
+    if complete:
+        for _ in range(rng.choice([1, 1, 2])):
+            args.insert(rng.randrange(len(args) + 1), ['c', rng.choice('sl')])
+    return args
+
+
+def cli_eff(case):
+    """what the command line options of a via='cli' case mean, from argparse's documented semantics (not from sugar)"""
+    tt, complete = 1, False
+    for a in case['args']:
+        if a[0] == 'tt':
+            tt = a[1]
+        else:
+            complete = True
+    return dict(case, tt=tt, complete=complete, check_start=None, check_stop=False, final_stop=None, astop='X', gap='-',
+                gap_after=2, warn=False)
+
+
+def eff(case):
+    return cli_eff(case) if case.get('via') == 'cli' else case
+
+
+def mk_script(rng, via, tt, o, s=None, recs=None):
+    """op 4 (s) / op 5 (recs) case; via='cli' can only say -tt and -c, so the other options are the defaults there"""
+    if via == 'cli':
+        o = {'complete': bool(o.get('complete', False))}
+    c = mk(s if s is not None else '', tt=tt, op=4 if s is not None else 5, **o)
+    c['via'] = via
+    if via == 'cli':
+        c['args'] = cli_args(rng, tt, c['complete'])
+        c['pos'] = rng.randrange(len(c['args']) + 1)
+    if recs is not None:
+        c['recs'] = recs
+        if via != 'basket':
+            c['fo'] = rng.choice(['fasta', 'fasta', 'sjson', 'sjson', 'fasta-o', 'sjson-o'])   # printed, or written with -o
+            c['rel'] = rng.random() < 0.5                                                   # relative or absolute file name
+    return c
+
+
+def text_of(case):
+    return '\n'.join(case['recs']) if case['op'] == 5 else case['s']
 
 
 def rand_opts(rng, plain=0.15):
@@ -186,7 +322,7 @@ def vary(rng, o):
         elif f == 'gap_after':
             o2[f] = rng.choice([c for c in [1, 2, 3, 4, None] if c != cur])
         elif f == 'tt':
-            o2[f] = rng.choice([c for c in TABLE_IDS if c != cur])
+            o2[f] = rng.choice([c for c in table_ids() if c != cur])
         elif f in ('check_start', 'final_stop'):
             o2[f] = rng.choice([c for c in [None, True, False] if c != cur])
         else:
@@ -204,8 +340,8 @@ def hstep(kind, o=None, **kw):
     return d
 
 
-def gen_history(rng):
-    tt = rng.choice(TABLE_IDS)
+def gen_history(rng, tt=None, pat=None):
+    tt = tt if tt is not None else rng.choice(table_ids())
     o1 = rand_opts(rng, plain=0.3)
     o1['tt'] = tt
     if rng.random() < 0.6:
@@ -215,14 +351,23 @@ def gen_history(rng):
     # texts with ambiguous-stop codons (astop), both kinds of gap characters, internal and terminal stops
     def text():
         t = rand_cds(rng, tt, rng.choice([2, 3, 5, 8])) + rng.choice(['', 'TAR', 'TRA', 'TGA', 'AGR'])
+        if rng.random() < 0.4:
+            t = table_text(rng, tt)          # the table's own start / stop codons and the codons on which the tables differ
         if rng.random() < 0.7:
             t = inject_gaps(rng, t, rng.choice(['-', '-', '.']), 0.15)
         return t
     t1 = text()
     t2 = rng.choice([text(), t1[::-1], t1[:3] + t1[3:][::-1], ''.join(rng.choice('ACGT') for _ in t1)])   # often the same length
-    raising = hstep  # placeholder to keep names local
     steps = []
-    pat = rng.choice(['calls', 'calls', 'object', 'object', 'basket'])
+    pat = pat or rng.choice(['calls', 'calls', 'object', 'object', 'basket'])
+
+    def nop():
+        # between two calls: read-only touches of the cached table object, or a COPY of it customised in place
+        return hstep('nop', what=rng.choice(['touch', 'copy', 'deepcopy']), tt=rng.choice([tt, tt, o2.get('tt', tt), rng.choice(table_ids())]))
+
+    def cli(o, t):
+        # the command line entry point inside the history: only -tt / -c can be said, everything else is the default
+        return hstep('cli', args=cli_args(rng, o.get('tt', tt), bool(o.get('complete', False))), s=t)
     if pat == 'calls':
         # (a)(b)(f): the same text with different options in both orders, another text with the same options
         seqn = rng.choice([[(t1, o1), (t1, o2), (t1, o1), (t2, o2), (t1, o2)],
@@ -231,6 +376,13 @@ def gen_history(rng):
         steps = [hstep('call', o, s=t) for t, o in seqn]
         if rng.random() < 0.3:
             steps.insert(rng.randrange(len(steps)), hstep('callseq', rng.choice([o1, o2])))
+        # the same texts through the command line, between the calls (same table, another table)
+        for o in ([o1, o2] if rng.random() < 0.5 else [rng.choice([o1, o2])]):
+            t = rng.choice([t1, t2])
+            t = t if rng.random() < 0.7 else t + '\n' + rng.choice([t1, t2])
+            if not all(ch in LETTERS or ch in 'U-\n' for ch in t):
+                t = inject_gaps(rng, table_text(rng, o.get('tt', tt)), '-', 0.1)
+            steps.insert(rng.randrange(len(steps) + 1), cli(o, t))
     elif pat == 'object':
         # (a)(c)(d): calls on the same object around in-place edits that keep the length, then in place
         steps = [hstep('callseq', o1), hstep('callseq', o2), hstep('callseq', o1)]
@@ -259,6 +411,8 @@ def gen_history(rng):
         if rng.random() < 0.5:
             steps += [hstep('set', s=t1), hstep('basket', dict(o2, check_start=rng.choice([True, False])), ms=[None, t2]),
                       hstep('callseq', o1)]
+    for _ in range(rng.choice([0, 1, 1, 2])):
+        steps.insert(rng.randrange(1, len(steps) + 1), nop())
     c = mk(t1, tt=tt, op=3)
     c['steps'] = steps
     return c
@@ -269,7 +423,8 @@ def gen_cases(rng, tier):
     cases = []
     # (a) every IUPAC codon of every table, concatenated in chunks, complete=True (no stop, no checks)
     chunk = 225
-    for tt in TABLE_IDS:
+    ids = table_ids()
+    for tt in ids:
         for k in range(0, len(ALL_CODONS), chunk):
             s = ''.join(ALL_CODONS[k:k + chunk])
             cases.append(mk(s, tt=tt, complete=True, check_start=False, final_stop=rng.choice([None, True, False]),
@@ -282,13 +437,13 @@ def gen_cases(rng, tier):
         o = rand_opts(rng, plain=0.3)
         o.update(check_start=False, complete=False, final_stop=rng.choice([False, False, None, True]))
         cases.append(mk(c, tt=tt, **o))
-    for tt in TABLE_IDS:
+    for tt in ids:
         for c in (ALL_CODONS if thorough else rng.sample(ALL_CODONS, 10) + rng.sample(STOPPY, 6) + rng.sample(STARTY, 5)):
             single(tt, c)
     # (c) codon pairs over the reduced alphabet (with gaps)
     red = 'ATGRN-'
     npairs = 1500 if thorough else 25
-    for tt in TABLE_IDS:
+    for tt in ids:
         for _ in range(npairs):
             s = ''.join(rng.choice(red) for _ in range(6))
             if rng.random() < 0.5:
@@ -305,7 +460,7 @@ def gen_cases(rng, tier):
     # (d) random CDS-like strings with gaps, T/U mixing, wrappers
     nrand = 12000 if thorough else 1100
     for _ in range(nrand):
-        tt = rng.choice(TABLE_IDS)
+        tt = rng.choice(ids)
         ncod = rng.choice([0, 1, 2, 3, 5, 8, 13, 30, 30, 60, 300 if rng.random() < 0.08 else 20])
         o = rand_opts(rng)
         s = rand_cds(rng, tt, ncod)
@@ -323,7 +478,7 @@ def gen_cases(rng, tier):
     # (d2) the terminal-stop boundary: a stop codon followed by 0..5 residues (and any number of gaps), short bodies
     nterm = 6000 if thorough else 450
     for _ in range(nterm):
-        tt = rng.choice(TABLE_IDS)
+        tt = rng.choice(ids)
         o = rand_opts(rng, plain=0.05)
         if rng.random() < 0.7:
             o['check_start'] = False
@@ -340,7 +495,7 @@ def gen_cases(rng, tier):
     # (e) out-of-domain slice: compared too, but not counted for the property
     nood = 600 if thorough else 60
     for _ in range(nood):
-        tt = rng.choice(TABLE_IDS)
+        tt = rng.choice(ids)
         s = rand_cds(rng, tt, rng.choice([1, 3, 10]))
         o = rand_opts(rng)
         r = rng.random()
@@ -360,11 +515,91 @@ def gen_cases(rng, tier):
         else:
             tt = rng.choice([0, 7, 8, 17, 34, 100])
         cases.append(mk(s, tt=tt, op=rng.choice([0, 0, 1]), **o))
+    # (g) EVERY entry point x EVERY bundled table on every run: a text built from the table's own start / stop codons and the codons
+    #     on which the tables differ; the table named by an int or by its decimal string
+    def recs_of(tt, n):
+        return [table_text(rng, tt) if i == 0 or rng.random() < 0.6 else rand_cds(rng, tt, rng.choice([0, 1, 3, 8])) for i in range(n)]
+
+    def gapped(t, o):
+        g = o.get('gap', '-')
+        return inject_gaps(rng, t, g, 0.08) if g is not None and rng.random() < 0.4 else t
+
+    def entry(ep, tt, o):
+        if ep in ('fn', 'fnseq', 'seq', 'basket2'):
+            c = mk(gapped(table_text(rng, tt), o), tt=tt, op={'fn': 0, 'fnseq': 6, 'seq': 1, 'basket2': 2}[ep], **o)
+            if rng.random() < 0.4:
+                c['ttstr'] = True
+            return c
+        via, kind = ep.split(':')
+        if via == 'cli':
+            o = {'complete': bool(o.get('complete', False))}
+        if kind == 's':
+            t = gapped(table_text(rng, tt), o)
+            if rng.random() < 0.25:
+                t = '\n'.join([t] + [gapped(table_text(rng, tt), o) for _ in range(rng.choice([1, 2]))]) + rng.choice(['', '\n'])
+            return mk_script(rng, via, tt, o, s=t)
+        o = dict(o)
+        if o.get('gap', '-') == ' ':
+            o['gap'] = '.'                 # FASTA lines are stripped: a blank is no residue character in a file
+        return mk_script(rng, via, tt, o, recs=[gapped(r, o) for r in recs_of(tt, rng.choice([1, 2, 3, 4]))])
+    EPS = ['fn', 'fnseq', 'seq', 'basket2', 'cli:s', 'run:s', 'fn:s', 'cli:f', 'run:f', 'fn:f', 'basket:f']
+    sweep = []
+    for tt in ids:
+        for ep in EPS:
+            for k in range(4 if thorough else 2):
+                o = {'complete': bool(k % 2)} if rng.random() < 0.5 else dict(rand_opts(rng), complete=bool(k % 2))
+                o.pop('warn', None)
+                if rng.random() < 0.5:
+                    o['check_start'] = rng.choice([True, None])      # the table's own start codons must be accepted
+                sweep.append(entry(ep, tt, o))
+    # (h) random texts through the script entry points and baskets of any size
+    for _ in range(4000 if thorough else 260):
+        tt = rng.choice(ids)
+        o = rand_opts(rng)
+        o.pop('warn', None)
+        ep = rng.choice(EPS[4:])
+        via, kind = ep.split(':')
+        if via == 'cli':
+            o = {'complete': rng.random() < 0.5}
+        g = o.get('gap', '-')
+        if kind == 'f' and g == ' ':
+            o['gap'] = g = '.'
+
+        def rtext():
+            t = rand_cds(rng, tt, rng.choice([0, 1, 2, 3, 5, 8, 13, 30]))
+            if rng.random() < 0.3:
+                t = t.replace('T', 'U') if rng.random() < 0.6 else ''.join('U' if ch == 'T' and rng.random() < 0.5 else ch for ch in t)
+            if g is not None and rng.random() < 0.5:
+                t = inject_gaps(rng, t, g)
+            return t
+        if kind == 's':
+            n = rng.choice([1, 1, 1, 2, 3])
+            t = '\n'.join(rtext() for _ in range(n)) + (rng.choice(['', '\n']) if n > 1 else '')
+            cases.append(mk_script(rng, via, tt, o, s=t))
+        else:
+            cases.append(mk_script(rng, via, tt, o, recs=[rtext() for _ in range(rng.choice([1, 1, 2, 3, 5]))]))
+    # (w) warn=True / False with the warnings recorded (op 7): the returned value / exception is compared as always; the number and
+    #     kinds of warnings are compared with the proved warning model as a STATISTIC only (the property is silent about warnings)
+    for _ in range(3000 if thorough else 200):
+        tt = rng.choice(ids)
+        o = rand_opts(rng, plain=0.2)
+        o['warn'] = rng.random() < 0.85
+        r = rng.random()
+        t = table_text(rng, tt) if r < 0.3 else rand_cds(rng, tt, rng.choice([0, 1, 2, 3, 5, 8, 13]))
+        if r > 0.8:
+            t = rng.choice(STARTY + ALL_CODONS) + t[3:] + rng.choice(['', 'TAR', 'TRA', 'TA', 'T'])
+        g = o.get('gap', '-')
+        if g is not None and rng.random() < 0.4:
+            t = inject_gaps(rng, t, g)
+        cases.append(mk(t, tt=tt, op=7, **o))
     rng.shuffle(cases)      # spread the long cases over the shards
-    # (f) histories: several calls in one process (state independence); first, each in a pristine child process
+    # (f) histories: several calls in one process (state independence); first, each in a pristine child process.
+    #     The first 3 x |tables| histories walk over every table x every pattern, the others draw both at random.
     zygote()
-    cases = [gen_history(rng) for _ in range(3000 if thorough else 300)] + cases
-    return cases
+    nh = 3000 if thorough else 300
+    fixed = [(tt, pat) for pat in ('calls', 'object', 'basket') for tt in ids]
+    hs = [gen_history(rng, tt, pat) for tt, pat in fixed] + [gen_history(rng) for _ in range(max(0, nh - len(fixed)))]
+    return sweep + hs + cases           # single calls first: the first failing case is the one that is shrunk and reported
 
 
 # ------------------------------------------------------------------ implementation side
@@ -376,7 +611,114 @@ def kwargs(case):
     kw = dict(complete=case['complete'], check_start=case['check_start'], check_stop=case['check_stop'],
               final_stop=case['final_stop'], astop=case['astop'], gap=case['gap'], gap_after=case['gap_after'], tt=case['tt'],
               warn=bool(case.get('warn', False)))
-    return {k: v for k, v in kw.items() if v != DEFAULTS[k] or type(v) is not type(DEFAULTS[k])}
+    kw = {k: v for k, v in kw.items() if v != DEFAULTS[k] or type(v) is not type(DEFAULTS[k])}
+    if case.get('ttstr'):
+        kw['tt'] = str(case['tt'])        # gcode(tt) looks the table up by str(tt): '11' names the same table as 11
+    return kw
+
+
+# ------------------------------------------------------------------ the script entry points (sugar/scripts.py), run in process
+class _Isolated:
+    """an empty scratch directory as cwd (the string input of `sugar translate` is first tried as a file name), removed afterwards"""
+    def __enter__(self):
+        import tempfile
+        self.old = os.getcwd()
+        self.d = tempfile.mkdtemp(prefix='C07-')
+        os.chdir(self.d)
+        return self.d
+
+    def __exit__(self, *a):
+        import shutil
+        os.chdir(self.old)
+        shutil.rmtree(self.d, ignore_errors=True)
+        return False
+
+
+def exc_name(e):
+    """class of the error that ended a script call; an ExceptionGroup (scripts.py:72) is named after the error of the translation"""
+    sub = getattr(e, 'exceptions', None)
+    if sub:
+        return exc_name(sub[-1])
+    return type(e).__name__
+
+
+def cli_argv(case, positional, extra=()):
+    """argv for sugar.scripts.cli: the option tokens of the case around the positional argument; a positional that begins with
+    '-' (a leading gap) goes after '--' as on any command line"""
+    toks = []
+    for a in case['args']:
+        toks.append(CLI_FORMS[a[2]](a[1]) if a[0] == 'tt' else [CLI_CFORMS[a[1]]])
+    toks += [list(x) for x in extra]
+    pos = max(0, min(int(case.get('pos', 0)), len(toks)))
+    if positional.startswith('-'):
+        return ['translate'] + sum(toks, []) + ['--', positional]
+    return ['translate'] + sum(toks[:pos], []) + [positional] + sum(toks[pos:], [])
+
+
+def parse_fasta(text):
+    recs, cur = [], None
+    for line in text.split('\n'):
+        if line.startswith('>'):
+            cur = []
+            recs.append(cur)
+        elif line.strip() and cur is not None:
+            cur.append(line.strip())
+    return [[''.join(r), None] for r in recs]
+
+
+def parse_out(fo, text):
+    if fo.startswith('sjson'):
+        import json
+        return [[d['data'], d.get('type')] for d in json.loads(text)['data']]
+    return parse_fasta(text)
+
+
+def run_script(case):
+    """op 4 / op 5 through sugar.scripts: printed lines (string input) or [None, [[data, type], ...]] (file input); an error of
+    any kind (exception, ExceptionGroup, SystemExit of argparse) is returned as {'e': class}"""
+    import io, contextlib
+    import sugar.scripts as scr
+    via, filemode = case['via'], case['op'] == 5
+    kw = kwargs(case) if via != 'cli' else {}
+    with _Isolated() as d:
+        extra, outp, fo = [], None, case.get('fo', 'fasta')
+        if filemode:
+            inp = 'in.fasta' if case.get('rel') else os.path.join(d, 'in.fasta')
+            with open(os.path.join(d, 'in.fasta'), 'w') as f:
+                f.write(''.join('>s%d\n%s\n' % (i, r) for i, r in enumerate(case['recs'])))
+            fmt = fo.split('-')[0]
+            if fo.endswith('-o'):
+                outp = os.path.join(d, 'out.' + fmt)
+                extra.append(['-o', outp])
+                kw['out'] = outp
+            if fmt != 'fasta' or (fo.endswith('-o') and len(case['recs']) % 2):
+                extra.append(['-fo', fmt])
+                kw['fmtout'] = fmt
+        else:
+            inp = case['s']
+        out, err = io.StringIO(), io.StringIO()
+        try:
+            with contextlib.redirect_stdout(out), contextlib.redirect_stderr(err):
+                if via == 'cli':
+                    scr.cli(cli_argv(case, inp, extra))
+                elif via == 'run':
+                    scr.run('translate', fname=inp, **kw)
+                else:
+                    scr.translate(inp, None, **kw)
+        except (Exception, SystemExit) as e:
+            from framework import ImplTimeout
+            if isinstance(e, ImplTimeout):
+                raise
+            return {'e': exc_name(e)}
+        text = out.getvalue()
+        if not filemode:
+            assert text == '' or text.endswith('\n'), 'printed text does not end with a newline'
+            return text.split('\n')[:-1]
+        if outp is not None:
+            assert text == '', 'something was printed although -o was given'
+            with open(outp) as f:
+                text = f.read()
+        return [None, parse_out(fo, text)]
 
 
 # ------------------------------------------------------------------ pristine processes for the histories
@@ -514,6 +856,22 @@ def run_history(case):
                 err = 'ValueError'
             assert len(b) == len(objs) and all(x is y for x, y in zip(b, objs))
             outs.append([err, [[q.data, q.type] for q in objs]])
+        elif k == 'nop':
+            import copy
+            from sugar.data import gcode
+            g = gcode(st['tt'])
+            if st['what'] == 'touch':
+                _ = (sorted(g.starts), 'ATG' in g.stops, len(g.tt), list(g.tt.items())[:3], g.get('name'), [x for x in g],
+                     'TAR' in g.astops, g.tt.get('NNN'), dict(g.tt) == g.tt, set(g.astarts) | set(g.stops))
+            else:
+                c = g.copy() if st['what'] == 'copy' else copy.deepcopy(g)
+                c.starts.add('CCC'); c.starts.discard('ATG'); c.stops.clear(); c.astops.add('ATG'); c.astarts.clear()
+                c.tt['AAA'] = 'Z'; c.tt['NNN'] = 'Z'
+                c.tt.pop('ATG', None)
+            outs.append(None)
+        elif k == 'cli':
+            r = run_script({'op': 4, 'via': 'cli', 'args': st['args'], 'pos': len(st['args']), 's': st['s']})
+            outs.append([{'e': 'ValueError'} if isinstance(r, dict) else r, state()])
         else:
             raise AssertionError('unknown step %r' % (k,))
     return outs
@@ -523,6 +881,8 @@ def impl(case):
     op, s = case['op'], case['s']
     if op == 3:
         return run_history_isolated(case)
+    if op == 4 or (op == 5 and case['via'] != 'basket'):
+        return run_script(case)
     kw = kwargs(case)
     if op == 0:
         from sugar.core.cane import translate
@@ -530,6 +890,33 @@ def impl(case):
         assert isinstance(r, str)
         return r
     from sugar import BioSeq, BioBasket
+    if op == 7:
+        import warnings
+        from sugar.core.cane import translate
+        with warnings.catch_warnings(record=True) as rec:
+            warnings.simplefilter('always')
+            try:
+                r = translate(s, **kw)
+                assert isinstance(r, str)
+            except ValueError:
+                r = {'e': 'ValueError'}
+        return [r, len(rec), [warn_kind(str(w.message)) for w in rec]]
+    if op == 6:
+        from sugar.core.cane import translate
+        seq = BioSeq(s, type='nt')
+        before = seq.data
+        r = translate(seq, **kw)
+        assert isinstance(r, str) and [seq.data, seq.type] == [before, 'nt'], 'translate(seq) is not in place'
+        return r
+    if op == 5:
+        objs = [BioSeq(r, type='nt') for r in case['recs']]
+        b, err = BioBasket(objs), None
+        try:
+            assert b.translate(**kw) is b, 'translate must return the receiver'
+        except ValueError:
+            err = 'ValueError'
+        assert len(b) == len(objs) and all(x is y for x, y in zip(b, objs))
+        return [err, [[q.data, q.type] for q in objs]]
     seq = BioSeq(s, type='nt')
     if op == 1:
         r = seq.translate(**kw)
@@ -546,6 +933,18 @@ def impl(case):
         err = 'ValueError'
     assert len(b) == 2 and b[0] is seq and b[1] is other
     return [err, [[seq.data, seq.type], [other.data, other.type]]]
+
+
+def warn_kind(msg):
+    """kind of a warning by its text - used for the informational statistic only, never for the verdict"""
+    for k, pat in ((2, 'possibly is not a start'), (1, 'is not a start codon'), (3, 'might be a stop'), (4, 'First stop codon'),
+                   (6, 'possibly is not a stop'), (5, 'is not a stop codon')):
+        if pat in msg:
+            return k
+    return 0
+
+
+WARN_STATS = {'cases': 0, 'count_agrees': 0, 'kinds_agree': 0, 'with_warnings': 0}
 
 
 def coq_byte(ch):
@@ -572,16 +971,64 @@ def coq_hstep(st):
         return '(HRepl %s %s)' % (coq_byte(st['a']), coq_byte(st['b']))
     if k == 'trans':
         return '(HTrans %s %s)' % (coq_N(st['tt']), coq_opts(st))
+    if k == 'nop':
+        return 'HNop'
+    if k == 'cli':
+        return '(HCli %s %s)' % (coq_cli_args(st['args']), coq_bs(st['s']))
     return '(HBasket %s %s [%s])' % (coq_N(st['tt']), coq_opts(st), '; '.join(coq_opt(m, coq_bs) for m in st['ms']))
+
+
+def coq_cli_args(args):
+    out = []
+    for a in args:
+        if a[0] == 'tt':
+            CLI_FORMS[a[2]]
+            out.append('(ATt %s)' % coq_N(a[1]))
+        else:
+            CLI_CFORMS[a[1]]
+            assert a[0] == 'c'
+            out.append('AComplete')
+    return '[%s]' % '; '.join(out)
 
 
 def model_term(case):
     if case['op'] == 3:
         return 'out (run_C07_hist %s [%s])' % (coq_bs(case['s']), '; '.join(coq_hstep(st) for st in case['steps']))
-    return 'out (run_C07 %s %s (mk_opts %s %s %s %s %s %s %s) %s)' % (
-        coq_N(case['op']), coq_N(case['tt']), coq_bool(case['complete']), coq_opt(case['check_start'], coq_bool),
-        coq_bool(case['check_stop']), coq_opt(case['final_stop'], coq_bool), coq_byte(case['astop']),
-        coq_opt(case['gap'], coq_byte), coq_opt(case['gap_after'], coq_z), coq_bs(case['s']))
+    op = case['op']
+    if op in (4, 5):
+        data = coq_bs(case['s']) if op == 4 else '[%s]' % '; '.join(coq_bs(r) for r in case['recs'])
+        fn = 'str' if op == 4 else 'recs'
+        if case['via'] == 'cli':
+            return 'out (run_C07_cli_%s %s %s)' % (fn, coq_cli_args(case['args']), data)
+        {'run': 0, 'fn': 0, 'basket': 0}[case['via']]
+        return 'out (run_C07_%s %s %s %s)' % (fn, coq_N(case['tt']), coq_opts(case), data)
+    if op == 7:
+        return 'out (run_C07_warn %s %s %s %s)' % (coq_N(case['tt']), coq_opts(case), coq_bool(bool(case['warn'])), coq_bs(case['s']))
+    assert op in (0, 1, 2, 6)
+    if case.get('ttstr'):
+        return 'out (run_C07_key (TStr %s) %s %s %s)' % (coq_bs(str(case['tt'])), coq_N(op), coq_opts(case), coq_bs(case['s']))
+    return 'out (run_C07 %s %s %s %s)' % (coq_N(op), coq_N(case['tt']), coq_opts(case), coq_bs(case['s']))
+
+
+def valid_case(c):
+    """shape of a (shrunk) case"""
+    if c['op'] in (4, 5):
+        if c.get('via') not in (('cli', 'run', 'fn') if c['op'] == 4 else ('cli', 'run', 'fn', 'basket')):
+            return False
+        if c['via'] == 'cli':
+            coq_cli_args(c['args'])
+        if c['op'] == 5 and (not c['recs'] or (c['via'] != 'basket' and c.get('fo') not in ('fasta', 'sjson', 'fasta-o', 'sjson-o'))):
+            return False
+    if c['op'] == 3:
+        for st in c['steps']:
+            if st['_k'] == 'cli':
+                coq_cli_args(st['args'])
+            if st['_k'] == 'nop' and st.get('what') not in ('touch', 'copy', 'deepcopy'):
+                return False
+    return len(c['astop']) == 1 and (c['gap'] is None or len(c['gap']) == 1) if c['op'] != 3 else True
+
+
+NO_SHRINK_KEYS = ('via', 'fo', 'what')
 
 
 def split_model(case, m):
@@ -589,6 +1036,32 @@ def split_model(case, m):
 
 
 def agree(case, implval, modelval):
+    if case['op'] == 7:
+        if isinstance(implval, dict) or isinstance(modelval, dict):
+            return implval == modelval
+        WARN_STATS['cases'] += 1
+        WARN_STATS['count_agrees'] += implval[1] == modelval[1]
+        WARN_STATS['kinds_agree'] += implval[2] == modelval[2]
+        WARN_STATS['with_warnings'] += modelval[1] > 0
+        if implval[2] != modelval[2] and len(WARN_STATS.setdefault('examples_differ', [])) < 3:
+            WARN_STATS['examples_differ'].append([case['s'], kwargs(case), implval, modelval])
+        return implval[0] == modelval[0]          # the verdict: value / exception only
+    if case['op'] == 4:
+        # printed lines; an error of the command line (whatever its class) against an error of the model
+        if isinstance(implval, dict) or isinstance(modelval, dict):
+            return isinstance(implval, dict) and isinstance(modelval, dict)
+        return implval == modelval
+    if case['op'] == 5:
+        if isinstance(modelval, dict):
+            return implval == modelval
+        merr, mstates = modelval
+        if isinstance(implval, dict):
+            return merr is not None            # file input: nothing is written when a record raises
+        ierr, istates = implval
+        if ierr != merr or len(istates) != len(mstates):
+            return False
+        # FASTA output shows the residues only (type None = not observable there)
+        return all(a[0] == b[0] and (a[1] is None or a[1] == b[1]) for a, b in zip(istates, mstates))
     return implval == modelval
 
 
@@ -646,6 +1119,16 @@ def spec_history(case, got):
                 why = check_one(st, text, r)
                 if why:
                     return 'step %d: %s' % (i, why)
+        elif k == 'nop':
+            if out is not None:
+                return 'step %d: %r' % (i, out)
+        elif k == 'cli':
+            res, state = out
+            if state != cur:
+                return 'step %d: the command line call changed the object to %r' % (i, state)
+            why = check_lines(cli_eff(dict(mk(''), args=st['args'])), st['s'], res)
+            if why:
+                return 'step %d: sugar translate: %s' % (i, why)
         elif k == 'set':
             cur = [st['s'], cur[1]]
             if out != cur:
@@ -708,17 +1191,75 @@ def spec_history(case, got):
     return None
 
 
+def check_lines(c, text, got):
+    """string input of the script entry points: one translation per line of the text; an error iff some line must raise"""
+    if c['tt'] not in prt_tables():
+        return None
+    lines = text.splitlines()
+    exp = [spec_translate(c, l) for l in lines]
+    if 'ValueError' in exp:
+        return None if isinstance(got, dict) else 'line %d must raise, printed %r' % (exp.index('ValueError'), got)
+    if isinstance(got, dict):
+        return 'failed with %s; expected the lines %r (up to gap symbols)' % (got.get('e'), exp)
+    if len(got) != len(lines):
+        return '%d lines printed for %d input lines' % (len(got), len(lines))
+    for l, g in zip(lines, got):
+        why = check_one(c, l, g)
+        if why:
+            return 'line %r: %s' % (l, why)
+    return None
+
+
+def check_recs(c, recs, got, states_on_error):
+    """a list of records translated in place, in order, up to the first one that must raise"""
+    if c['tt'] not in prt_tables():
+        return None
+    inputs = [r.upper() for r in recs]
+    exp = [spec_translate(c, r) for r in inputs]
+    k = exp.index('ValueError') if 'ValueError' in exp else None
+    if isinstance(got, dict):
+        if k is None or states_on_error:
+            return 'failed with %s; expected %r (up to gap symbols)' % (got.get('e'), exp)
+        return None
+    err, states = got
+    if (err is not None) != (k is not None):
+        return 'raised %r, but record %r %s' % (err, k, 'must raise' if k is not None else 'is translatable: ' + repr(exp))
+    if len(states) != len(inputs):
+        return '%d records came back for %d' % (len(states), len(inputs))
+    for i, (inp, (data, typ)) in enumerate(zip(inputs, states)):
+        if k is not None and i >= k:
+            if [data, typ] != [inp, 'nt']:
+                return 'record %d (the failing one or after it) was changed: %r' % (i, [data, typ])
+            continue
+        if typ not in ('aa', None):
+            return 'record %d: type is %r after translate' % (i, typ)
+        why = check_one(c, inp, data)
+        if why:
+            return 'record %d %r: %s' % (i, inp, why)
+    return None
+
+
 def spec(case, got):
     """Property-level oracle (NCBI gc.prt + IUPAC), independent of sugar's loop, of gc.json and of the Coq model."""
+    op = case['op']
+    if op == 4:
+        return check_lines(eff(case), case['s'], got)
+    if op == 5:
+        return check_recs(eff(case), case['recs'], got, case['via'] == 'basket')
     if case['tt'] not in prt_tables():
         return None
-    op = case['op']
     if op == 3:
         return spec_history(case, got)
-    if op == 0:
+    if op == 7:
         if isinstance(got, dict):
-            return check_one(case, case['s'], 'ValueError') if got.get('e') == 'ValueError' else 'raised %s' % got.get('e')
-        return check_one(case, case['s'], got)
+            return 'raised %s' % got.get('e')
+        got = got[0]
+        op = 0
+    if op in (0, 6):
+        s0 = case['s'] if op == 0 else case['s'].upper()
+        if isinstance(got, dict):
+            return check_one(case, s0, 'ValueError') if got.get('e') == 'ValueError' else 'raised %s' % got.get('e')
+        return check_one(case, s0, got)
     s = case['s'].upper()
     if op == 1:
         if isinstance(got, dict):
@@ -754,8 +1295,14 @@ def spec(case, got):
 
 def flat(case, got):
     """main observable: the (first) translated string, or the error dict"""
-    if isinstance(got, dict) or case['op'] == 0:
+    if isinstance(got, dict) or case['op'] in (0, 6):
         return got
+    if case['op'] == 7:
+        return got[0]
+    if case['op'] == 4:
+        return got[0] if got else ''
+    if case['op'] == 5:
+        return {'e': got[0]} if got[0] else (got[1][0][0] if got[1] else '')
     if case['op'] == 3:
         for st, out in zip(case['steps'], got):
             if st['_k'] == 'call':
@@ -770,7 +1317,8 @@ def flat(case, got):
 
 def markers(case, got):
     got = flat(case, got)
-    s = case['s']
+    s = text_of(case)
+    case = eff(case)
     m = []
     g = case['gap']
     if g is not None and g in s:
@@ -803,8 +1351,16 @@ def markers(case, got):
             m.append(k)
     if case['op'] == 3:
         m.append('history:' + '-'.join(sorted(set(st['_k'] for st in case['steps']))))
+    elif case['op'] in (4, 5):
+        m.append('script:' + case['via'] + (':file:' + case.get('fo', '') if case['op'] == 5 else ':text'))
+        if '\n' in s:
+            m.append('lines')
+    elif case['op'] == 7:
+        m.append('warnings-recorded')
     elif case['op']:
         m.append('wrapper')
+    if case.get('ttstr'):
+        m.append('tt-as-str')
     return m
 
 
@@ -815,14 +1371,136 @@ def nontrivial(case, got):
 
 def histkey(case, got0):
     got = flat(case, got0)
-    n = len(case['s'])
-    ks = ['op=%d' % case['op'], 'tt=%d' % case['tt'],
+    n = len(text_of(case))
+    case = eff(case)
+    ks = ['op=%d' % case['op'], 'tt=%d' % case['tt'], 'entry=%s/tt=%d' % (entry_name(case), case['tt']),
           'len=' + ('0' if n == 0 else '1-3' if n <= 3 else '4-6' if n <= 6 else '7-99' if n < 100 else '100-999' if n < 1000 else '1000+'),
           'result=' + (got.get('e', '?') if isinstance(got, dict) else 'str')]
     ks += ['mark=' + x for x in markers(case, got0) if x in ('gap', 'gap-in-codon', 'gap-trailing', 'ambiguous', 'rna', 'stop-symbol')]
     for k in ('complete', 'check_start', 'check_stop', 'final_stop', 'gap_after'):
         ks.append('%s=%s' % (k, case[k]))
     return ks
+
+
+# ------------------------------------------------------------------ relational checks without a model
+CHILD = 'import sys; from sugar.scripts import cli; sys.exit(cli())'      # what the console script `sugar` does (pyproject: sugar.scripts:cli)
+
+
+def extra_checks(rng, tier, cov):
+    """(1) `sugar translate` in CHILD PROCESSES (console-script shape and `python -m sugar.scripts`), every bundled table id, string and
+    file input, -c or not: the printed text against the first-principles oracle; (2) any other public name `translate` exported by the
+    package is the same function as cane.translate on every table; (3) --cds on the bundled GenBank example."""
+    import subprocess, sys, tempfile, shutil, io, contextlib
+    from framework import REPO
+    ids = table_ids()
+    jobs = []
+    for tt in ids:
+        for k in range(4 if tier == 'thorough' else 2):
+            c = mk('', tt=tt, complete=bool(k % 2))
+            c.update(via='cli', args=cli_args(rng, tt, c['complete']), pos=rng.randrange(3))
+            filemode = (k + tt) % 2 == 1
+            if filemode:
+                c.update(op=5, recs=[table_text(rng, tt) for _ in range(rng.choice([1, 2, 3]))], fo='fasta')
+            else:
+                c.update(op=4, s=table_text(rng, tt))
+            jobs.append(c)
+    env = {'PYTHONPATH': REPO, 'PYTHONHASHSEED': '0', 'PATH': os.environ.get('PATH', '/usr/bin:/bin'), 'LC_ALL': 'C.UTF-8'}
+    d = tempfile.mkdtemp(prefix='C07-')
+    try:
+        n = 0
+        for b in range(0, len(jobs), 16):
+            procs = []
+            for j, c in enumerate(jobs[b:b + 16]):
+                wd = os.path.join(d, 'w%d' % (b + j))
+                os.mkdir(wd)
+                if c['op'] == 5:
+                    with open(os.path.join(wd, 'in.fasta'), 'w') as f:
+                        f.write(''.join('>s%d\n%s\n' % (i, r) for i, r in enumerate(c['recs'])))
+                argv = cli_argv(c, 'in.fasta' if c['op'] == 5 else c['s'])
+                head = [sys.executable, '-c', CHILD] if (b + j) % 3 else [sys.executable, '-m', 'sugar.scripts']
+                procs.append((c, argv, subprocess.Popen(head + argv, cwd=wd, env=env, stdin=subprocess.DEVNULL,
+                                                        stdout=subprocess.PIPE, stderr=subprocess.PIPE)))
+            for c, argv, pr in procs:
+                try:
+                    so, se = pr.communicate(timeout=120)
+                except subprocess.TimeoutExpired:
+                    pr.kill()
+                    so, se = pr.communicate()
+                n += 1
+                so = so.decode('latin-1')
+                if pr.returncode != 0:
+                    got = {'e': 'exit status %s: %s' % (pr.returncode, se.decode('latin-1').strip().splitlines()[-1:] or '')}
+                elif c['op'] == 4:
+                    got = so.split('\n')[:-1]
+                else:
+                    got = [None, parse_fasta(so)]
+                why = spec(c, got)
+                if why:
+                    yield {'case': dict(c, argv=argv), 'impl': got, 'spec': 'child process `sugar %s`: %s' % (' '.join(argv), why)}
+        cov['cli_child_processes'] = n
+        cov['cli_child_tables'] = len(ids)
+    finally:
+        shutil.rmtree(d, ignore_errors=True)
+    # (2) other exported names
+    import importlib
+    from sugar.core.cane import translate
+    seen = 0
+    for name in ('sugar', 'sugar.core', 'sugar.core.seq', 'sugar.data', 'sugar.scripts'):
+        try:
+            mod = importlib.import_module(name)
+        except Exception:
+            continue
+        f = getattr(mod, 'translate', None)
+        if f is None or f is translate or not callable(f) or name == 'sugar.scripts':
+            continue
+        seen += 1
+        for tt in ids:
+            t = table_text(rng, tt)
+            for complete in (False, True):
+                c = mk(t, tt=tt, complete=complete)
+                try:
+                    got = f(t, tt=tt, complete=complete)
+                    got = str(got)
+                except Exception as e:
+                    got = {'e': type(e).__name__}
+                why = spec(c, got)
+                if why:
+                    yield {'case': dict(c, entry=name + '.translate'), 'impl': got, 'spec': '%s.translate: %s' % (name, why)}
+    cov['other_exported_translate'] = seen
+    cov['warning_model_statistic_not_part_of_verdict'] = dict(WARN_STATS)
+    # (3) the bundled GenBank example, CDS features cut out by --cds: every printed record is the translation of that CDS
+    try:
+        from sugar import read
+        cds = [str(q) for q in read('!data/example.gb')['cds']]      # the name the command line is given below
+    except Exception:
+        cds = None
+    cov['cds_example_records'] = len(cds) if cds else 0
+    if cds:
+        import sugar.scripts as scr
+        for tt in rng.sample(ids, 27 if tier == 'thorough' else 4) + [1]:
+            for complete in (False, True):
+                c = mk('', tt=tt, op=5, complete=complete)
+                c.update(via='cli', args=[['tt', tt, 's']] + ([['c', 'l']] if complete else []), pos=0, recs=cds, fo='fasta')
+                out = io.StringIO()
+                with _Isolated():
+                    try:
+                        with contextlib.redirect_stdout(out), contextlib.redirect_stderr(io.StringIO()):
+                            scr.cli(cli_argv(c, '!data/example.gb', [['--cds'], ['-fo', 'fasta']]))
+                        got = [None, parse_fasta(out.getvalue())]
+                    except (Exception, SystemExit) as e:
+                        got = {'e': exc_name(e)}
+                why = spec(c, got)
+                if why:
+                    yield {'case': dict(c, recs=['<the %d CDS of the bundled example>' % len(cds)]), 'impl': got if isinstance(got, dict) else None,
+                           'spec': 'sugar translate --cds -tt %d%s !data/example.gb: %s' % (tt, ' -c' if complete else '', why[:300])}
+
+
+def entry_name(case):
+    op = case['op']
+    if op in (4, 5):
+        return '%s:%s' % (case['via'], 'text' if op == 4 else 'records')
+    return {0: 'cane.translate(str)', 1: 'BioSeq.translate', 2: 'BioBasket.translate', 3: 'history', 6: 'cane.translate(BioSeq)',
+            7: 'cane.translate(str) warnings recorded'}[op]
 
 
 def features(case, got):
@@ -835,7 +1513,7 @@ def history_snippet(case):
          'def show(f):', '    try: print(repr(f()), [seq.data, seq.type])', "    except ValueError as e: print('ValueError', e, [seq.data, seq.type])"]
     for st in case['steps']:
         k = st['_k']
-        kw = ', '.join('%s=%r' % kv for kv in kwargs(st).items()) if 'tt' in st else ''
+        kw = ', '.join('%s=%r' % kv for kv in kwargs(st).items()) if 'astop' in st else ''
         if k == 'call':
             L.append('show(lambda: translate(%r, %s))' % (st['s'], kw))
         elif k == 'callseq':
@@ -848,6 +1526,17 @@ def history_snippet(case):
             L.append('seq.str.replace(%r, %r)' % (st['a'], st['b']))
         elif k == 'trans':
             L.append('show(lambda: seq.translate(%s).data)' % kw)
+        elif k == 'nop':
+            L.append('import copy; from sugar.data import gcode; g = gcode(%d)' % st['tt'])
+            if st['what'] == 'touch':
+                L.append("sorted(g.starts), 'ATG' in g.stops, len(g.tt), list(g.tt.items())[:3], g.get('name'), [x for x in g], g.tt.get('NNN')")
+            else:
+                L.append('c = %s' % ('g.copy()' if st['what'] == 'copy' else 'copy.deepcopy(g)'))
+                L.append("c.starts.add('CCC'); c.starts.discard('ATG'); c.stops.clear(); c.astops.add('ATG'); c.astarts.clear(); "
+                         "c.tt['AAA'] = 'Z'; c.tt['NNN'] = 'Z'; c.tt.pop('ATG', None)")
+        elif k == 'cli':
+            L.append('from sugar.scripts import cli')
+            L.append('show(lambda: cli(%r))  # run it in an empty directory' % (cli_argv({'args': st['args'], 'pos': len(st['args'])}, st['s']),))
         else:
             L.append('objs = [%s]' % ', '.join('seq' if m is None else "BioSeq(%r, type='nt')" % m for m in st['ms']))
             L.append('show(lambda: BioBasket(objs).translate(%s) and None); print([[q.data, q.type] for q in objs])' % kw)
@@ -858,38 +1547,81 @@ def python_snippet(case):
     if case['op'] == 3:
         return history_snippet(case)
     kw = ', '.join('%s=%r' % kv for kv in kwargs(case).items())
+    if case['op'] in (4, 5):
+        L = ['# run in an empty directory']
+        inp = case['s']
+        if case['op'] == 5:
+            if case['via'] == 'basket':
+                return ("from sugar import BioSeq, BioBasket; b=BioBasket([BioSeq(r, type='nt') for r in %r])\n"
+                        "try: b.translate(%s)\nexcept ValueError as e: print('ValueError', e)\nprint([[q.data, q.type] for q in b])" % (case['recs'], kw))
+            L.append("open('in.fasta', 'w').write(%r)" % ''.join('>s%d\n%s\n' % (i, r) for i, r in enumerate(case['recs'])))
+            inp = 'in.fasta'
+        fmt = case.get('fo', 'fasta').split('-')[0]
+        if case['via'] == 'cli':
+            L.append('from sugar.scripts import cli; cli(%r)' % (cli_argv(case, inp, [['-fo', fmt]] if case['op'] == 5 else []),))
+        elif case['via'] == 'run':
+            L.append("from sugar.scripts import run; run('translate', fname=%r%s%s)" % (inp, ', ' + kw if kw else '', ", fmtout=%r" % fmt if case['op'] == 5 else ''))
+        else:
+            L.append("from sugar.scripts import translate; translate(%r, None%s%s)" % (inp, ', ' + kw if kw else '', ", fmtout=%r" % fmt if case['op'] == 5 else ''))
+        return '\n'.join(L)
     if case['op'] == 0:
         return 'from sugar.core.cane import translate; print(repr(translate(%r, %s)))' % (case['s'], kw)
+    if case['op'] == 7:
+        return ('import warnings; from sugar.core.cane import translate\nwith warnings.catch_warnings(record=True) as rec:\n'
+                "    warnings.simplefilter('always'); print(repr(translate(%r, %s)))\nprint([str(w.message) for w in rec])" % (case['s'], kw))
+    if case['op'] == 6:
+        return "from sugar import BioSeq; from sugar.core.cane import translate; print(repr(translate(BioSeq(%r, type='nt'), %s)))" % (case['s'], kw)
     if case['op'] == 1:
         return "from sugar import BioSeq; q=BioSeq(%r, type='nt').translate(%s); print([q.data, q.type])" % (case['s'], kw)
     return ("from sugar import BioSeq, BioBasket; b=BioBasket([BioSeq(%r, type='nt'), BioSeq(%r, type='nt')])\n"
             "try: b.translate(%s)\nexcept ValueError as e: print('ValueError', e)\nprint([[q.data, q.type] for q in b])" % (case['s'], case['s'][3:], kw))
 
 
-LEVEL_TEXT = ('Machine-checked Coq theorems (22, no axioms) about a Gallina model of translate() over the 27 regenerated tables. '
+LEVEL_TEXT = ('Machine-checked Coq theorems (36, no axioms) about a Gallina model of translate() over the 27 regenerated tables. '
               'PROVED for every string, table and option record: on gap-free input the loop equals the codon-level specification '
               '(codon by codon the table symbol, stop at the first stop codon unless complete, check_start / check_stop raise exactly '
               'when the first codon cannot start / the first stop codon is missing or not the last complete codon); final_stop changes '
-              'only the terminal stop symbol (C07_final_stop_only); T/U equivalence; for every input the loop equals the specification '
+              'only the terminal stop symbol (C07_final_stop_only); T/U spelling never matters, with gaps and options (C07_tu_spelling); '
+              'for every input the loop equals the specification '
               'with gap symbols placed by marks (C07_gap_placement: the g-th gap character writes a symbol iff g = gap_after + 3j, before '
               'the symbol of the codon being read), their number is ecount (0 below gap_after, then one per three; exact when the run is '
               'not cut short), and removing them gives the translation of the degapped input (errors included); BioSeq.translate sets '
-              'data and type aa, BioBasket.translate maps it in place and stops at the first failing sequence. PROVED BY COMPLETE '
+              'data and type aa, BioBasket.translate is a map that stops at the first failing sequence (C07_basket_is_map). COMMAND LINE '
+              '(sugar/scripts.py): the option decision table (C07_cli_options, C07_cli_last_tt: the last -tt names the table, table 1 '
+              'without one; complete iff some -c; all other options default, hence start check iff not complete and terminal stop iff '
+              'complete; always inside the option domain, C07_cli_in_domain), string input = one translation per line, failing iff a line '
+              'raises (C07_cli_lines, C07_splitlines_join), a one-line text is printed as the specification of the degapped text under the '
+              'selected table (C07_cli_follows_table), file input = the basket of the upper-cased records (C07_cli_file), an int and its '
+              'decimal string name the same table (C07_tt_int_or_str, for every number). WARNINGS: the loop with its warnings.warn calls '
+              '(translate_w) returns what translate returns, emits nothing without warn (C07_warn_irrelevant), and on gap-free input emits '
+              'exactly spec_warns, codon by codon (C07_warn_spec); the last warning of the source is dead code for every input (C07_warn_dead_branch). END TO END in IUPAC terms for every shipped table and every input of the '
+              'domain: C07_translate_iupac. PROVED BY COMPLETE '
               'ENUMERATION over the regenerated gc.json (27 tables x 3375 IUPAC codons, re-checked on every run): the symbol is the table '
               'entry / astop if some expansion is a stop / the shared amino acid / X; stop codons are unambiguous; a codon can start iff '
               'an expansion is a start codon; every bundled id resolves to such a table. TESTED ONLY (differential correspondence with '
               'the real code on every run plus an independent NCBI gc.prt oracle): that the model is what cane.translate / gcode / the '
-              'wrappers do, object identity (returns the receiver, in place), the defaults of the signature, independence of warn, the '
-              'exception class, KeyError for unknown table ids, and state independence: histories of several calls in one process (same text / '
+              'wrappers / sugar.scripts do - on every entry point (function, methods, cli / run / translate of sugar.scripts on strings and '
+              'FASTA files, child processes) for every bundled table id on every run -, object identity (returns the receiver, in place), '
+              'the defaults of the signature, the '
+              'exception class (any failure on the command line), KeyError for unknown table ids, and state independence: histories of several '
+              'calls in one process (same text / '
               'same object with different astop, gap, gap_after, check options and tables in both orders, in-place edits between calls, '
-              'baskets sharing an object or holding a member that raises), each step compared with the pure model on the current value.')
-LEVEL_NOTE = ('Trusted: Coq kernel/vm_compute, translators tools/gens/gcode.py and c07.py, the correspondence harness, CPython str/dict/set. '
-              'Modelled rather than verified: cane.translate (warn only adds warnings and is modelled as a no-op; cases with warn=True '
-              'are compared on the returned value / exception), gcode() lookup, BioSeq.__init__ upper(), BioSeq/BioBasket.translate. astop '
+              'baskets sharing an object or holding a member that raises, the command line and customised copies of the cached table between '
+              'the calls), each step compared with the pure model on the current value.')
+LEVEL_NOTE = ('Trusted: Coq kernel/vm_compute, translators tools/gens/gcode.py and c07.py, the correspondence harness, CPython str/dict/set, '
+              'argparse, and for the file input of the command line sugar.read / tofmtstr / write of FASTA and SJSON (C01, C14). '
+              'Modelled rather than verified: cane.translate incl. the warn=True branches (translate_w; the verdict compares the returned '
+              'value / exception, the number and kinds of warnings are compared with the model on every warn case and reported as a '
+              'statistic only, because the property is silent about warnings - all ~200 such cases of the quick tier and all ~3000 of the thorough tier agree), gcode() lookup by str(tt), '
+              'BioSeq.__init__ upper(), BioSeq/BioBasket.translate, sugar.scripts.translate/run/cli (-tt, -c; --cds only on the bundled '
+              'example, relationally). astop '
               'and gap are single Latin-1 characters. Measured statement coverage of the modelled functions in the quick tier: gcode 12/12, '
               'BioSeq.translate 5/5, BioBasket.translate 4/4, translate 59/61 (measured on the single-call cases; the histories run in child '
               'processes forked from a process that never executed a case, so that each history is self-contained and replayable); the two missing statements (the body of '
               '"elif warn and codon in gc.astops" in the for/else clause, cane.py:456-457) are unreachable: the left-over codon has fewer '
-              'than three letters and astops holds three-letter codons only (Coq: short_not_in_set). All theorems closed under the global '
-              'context (no axioms).')
+              'than three letters and astops holds three-letter codons only (Coq: short_not_in_set; the model keeps the branch as '
+              'WMaybeNoStop and C07_warn_dead_branch proves it is never taken, for any input). sugar/scripts.py is not an anchored file, its '
+              'coverage is not measured. Not claimed: a caller who edits the cached gcode(tt) object in place changes later translations '
+              '(one lru_cached mutable object; copies are safe and tested). All theorems closed under the global context (no axioms; '
+              'C07_tt_int_or_str uses the decimal round trip of coq/lib/C01_Dec.v).')
 TECHNIQUE = 'Coq proof over an executable model + regenerated tables + differential correspondence'
